@@ -29,6 +29,10 @@ type run struct {
 	failed bool   // a LOGIN failed since the last success (informational)
 	broken string
 	keyN   int
+	// counters the server keeps in memory and that are not observable until they matter: failed logins since the last
+	// success (login jail) and consecutive BAD replies (the session is closed after 20). They keep BFS states apart.
+	failedLogins int
+	badStreak    int
 }
 
 func init() {
@@ -203,6 +207,19 @@ func (r *run) Step(ev explore.Event) []explore.Violation {
 			r.broken = res.Err.Error()
 		}
 	}
+	if res.Err == nil {
+		switch {
+		case verb == "LOGIN" && res.Status == "OK":
+			r.failedLogins = 0
+		case verb == "LOGIN" && res.Status == "NO":
+			r.failedLogins++
+		}
+		if res.Status == "BAD" {
+			r.badStreak++
+		} else {
+			r.badStreak = 0
+		}
+	}
 	if verb == "LOGOUT" {
 		r.w.Logout(r.s)
 		r.s.Dead = true
@@ -333,7 +350,7 @@ func (r *run) Canon() string {
 			srv = fmt.Sprintf("selected=%v ro=%v invalid=%v n=%d", d.Selected, d.ReadOnly, d.Invalid, len(d.Msgs))
 		}
 	}
-	return fmt.Sprintf("user=%d sel=%s ro=%v dead=%v server[%s] | %s | %s", r.user, r.sel, r.ro, r.s.Dead, srv, a, b)
+	return fmt.Sprintf("user=%d sel=%s ro=%v dead=%v failed-logins=%d bad-streak=%d server[%s] | %s | %s", r.user, r.sel, r.ro, r.s.Dead, r.failedLogins, r.badStreak, srv, a, b)
 }
 
 func (r *run) Extensions() []explore.Violation { return nil }
